@@ -22,8 +22,10 @@ package main
 // initialiser other than `<switch tag>` or `Dict{}`.
 
 import (
+	"bytes"
 	"fmt"
 	"go/ast"
+	"go/printer"
 	"go/token"
 	"path/filepath"
 	"reflect"
@@ -359,7 +361,11 @@ func genSchema(repo, out string) error {
 		}
 		fmt.Fprintf(&b, "  { code := %d, struct := %s, inits := [%s] }%s\n", v, leanStr(c.strct), strings.Join(ins, ", "), comma(i, len(cases)))
 	}
-	b.WriteString("]\n\nend Nexus.Gen\n")
+	b.WriteString("]\n\n")
+	if err := genSerializeFacts(repo, &b); err != nil {
+		return err
+	}
+	b.WriteString("end Nexus.Gen\n")
 	return writeIfChanged(filepath.Join(out, "Schema.lean"), []byte(b.String()))
 }
 
@@ -467,4 +473,123 @@ func parseNewMessage(d *ast.FuncDecl, pos func(token.Pos) string) ([]schemaCase,
 		}
 	}
 	return cases, nil
+}
+
+// ---- facts about transport/serialize ------------------------------------------
+
+// exprText prints an expression and removes all whitespace.
+func exprText(fset *token.FileSet, e ast.Node) string {
+	var buf bytes.Buffer
+	printer.Fprint(&buf, fset, e)
+	return strings.Join(strings.Fields(buf.String()), "")
+}
+
+// genSerializeFacts extracts, from transport/serialize:
+//   - how each Deserialize method obtains the list: `v, err := decodeList(data, h)` (and then
+//     decodeList must decode into `any` and insist on `[]any`), or decoding straight into a
+//     `[]any` (which makes the codec flatten a top-level map);
+//   - the condition guarding the Convert branch of listToMsg: bare `ConvertibleTo`, or
+//     additionally `(f.Kind() != reflect.String || arg.Kind() == reflect.String)`.
+//
+// Any other shape is a loud failure.
+func genSerializeFacts(repo string, b *strings.Builder) error {
+	dir := filepath.Join(repo, "transport", "serialize")
+	type top struct{ recv, how string }
+	var tops []top
+	decodeListChecked := false
+	sawDecodeList := false
+	guard := ""
+	for _, fn := range []string{"serializer.go", "jsonserializer.go", "msgpackserializer.go", "cborserializer.go"} {
+		fset, f, err := parseFile(filepath.Join(dir, fn))
+		if err != nil {
+			return err
+		}
+		pos := func(p token.Pos) string { return fset.Position(p).String() }
+		for _, d := range f.Decls {
+			fd, ok := d.(*ast.FuncDecl)
+			if !ok || fd.Body == nil {
+				continue
+			}
+			switch {
+			case fd.Recv != nil && fd.Name.Name == "Deserialize":
+				rt := fd.Recv.List[0].Type
+				if se, ok := rt.(*ast.StarExpr); ok {
+					rt = se.X
+				}
+				rid, ok := rt.(*ast.Ident)
+				if !ok || len(fd.Body.List) < 2 {
+					return fmt.Errorf("%s: Deserialize: receiver/body not understood", pos(fd.Pos()))
+				}
+				s0 := exprText(fset, fd.Body.List[0])
+				s1 := exprText(fset, fd.Body.List[1])
+				switch {
+				case strings.HasPrefix(s0, "v,err:=decodeList(data,") && strings.HasSuffix(s0, ")"):
+					tops = append(tops, top{rid.Name, "listChecked"})
+				case s0 == "varv[]any" && strings.HasPrefix(s1, "err:=codec.NewDecoderBytes(data,") && strings.HasSuffix(s1, ").Decode(&v)"):
+					tops = append(tops, top{rid.Name, "intoSlice"})
+				default:
+					return fmt.Errorf("%s: %s.Deserialize: the way the payload is decoded is not understood (%s; %s)", pos(fd.Pos()), rid.Name, s0, s1)
+				}
+				// the rest must go through listToMsg on the same v
+				body := exprText(fset, fd.Body)
+				if !strings.Contains(body, "iflen(v)==0{returnnil,errors.New(\"invalidmessage\")}") || !strings.HasSuffix(body, ",v)}") || !strings.Contains(body, "returnlistToMsg(wamp.MessageType(typ),v)") {
+					return fmt.Errorf("%s: %s.Deserialize: body after decoding not understood", pos(fd.Pos()), rid.Name)
+				}
+			case fd.Recv == nil && fd.Name.Name == "decodeList":
+				sawDecodeList = true
+				want := "{varvanyiferr:=codec.NewDecoderBytes(data,h).Decode(&v);err!=nil{returnnil,err}list,ok:=v.([]any)if!ok{returnnil,errors.New(\"invalidmessage:notalist\")}returnlist,nil}"
+				if got := exprText(fset, fd.Body); got != want {
+					return fmt.Errorf("%s: decodeList: body not understood: %s", pos(fd.Pos()), got)
+				}
+				decodeListChecked = true
+			case fd.Recv == nil && fd.Name.Name == "listToMsg":
+				var found []string
+				ast.Inspect(fd.Body, func(n ast.Node) bool {
+					is, ok := n.(*ast.IfStmt)
+					if !ok {
+						return true
+					}
+					c := exprText(fset, is.Cond)
+					if strings.Contains(c, "ConvertibleTo(") {
+						found = append(found, c)
+					}
+					return true
+				})
+				if len(found) != 1 {
+					return fmt.Errorf("%s: listToMsg: expected exactly one ConvertibleTo condition, found %d", pos(fd.Pos()), len(found))
+				}
+				switch found[0] {
+				case "arg.Type().ConvertibleTo(f.Type())":
+					guard = "unguarded"
+				case "arg.Type().ConvertibleTo(f.Type())&&(f.Kind()!=reflect.String||arg.Kind()==reflect.String)":
+					guard = "stringFromStringOnly"
+				default:
+					return fmt.Errorf("%s: listToMsg: conversion condition not understood: %s", pos(fd.Pos()), found[0])
+				}
+			}
+		}
+	}
+	if len(tops) != 3 {
+		return fmt.Errorf("transport/serialize: expected 3 Deserialize methods, found %d", len(tops))
+	}
+	for _, t := range tops {
+		if t.how == "listChecked" && !(sawDecodeList && decodeListChecked) {
+			return fmt.Errorf("transport/serialize: %s.Deserialize calls decodeList, which was not found", t.recv)
+		}
+	}
+	if guard == "" {
+		return fmt.Errorf("transport/serialize: listToMsg not found")
+	}
+	sort.Slice(tops, func(i, j int) bool { return tops[i].recv < tops[j].recv })
+	b.WriteString("/-- How a `Deserialize` method turns the payload into the list handed to `listToMsg`. -/\n")
+	b.WriteString("inductive TopDecode where\n  | intoSlice    -- `var v []any; Decode(&v)`: the codec also accepts (flattens) a top-level map\n  | listChecked  -- `decodeList`: decode into `any`, then insist on `[]any`\n  deriving DecidableEq, Repr, Inhabited\n\n")
+	b.WriteString("def topLevelDecode : List (String × TopDecode) := [\n")
+	for i, t := range tops {
+		fmt.Fprintf(b, "  (%s, .%s)%s\n", leanStr(t.recv), t.how, comma(i, len(tops)))
+	}
+	b.WriteString("]\n\n")
+	b.WriteString("/-- The condition on the `Convert` branch of `listToMsg`. -/\n")
+	b.WriteString("inductive ConvertGuard where\n  | unguarded             -- `arg.Type().ConvertibleTo(f.Type())`\n  | stringFromStringOnly  -- `... && (f.Kind() != reflect.String || arg.Kind() == reflect.String)`\n  deriving DecidableEq, Repr, Inhabited\n\n")
+	fmt.Fprintf(b, "def convertGuard : ConvertGuard := .%s\n\n", guard)
+	return nil
 }
